@@ -436,6 +436,33 @@ def family_splitkey(rng, dbdir, opts, nops):
     return h.lines
 
 
+def family_manifest_growth(rng, dbdir, opts, nops):
+    """a MANIFEST that is reused across reopens (reuse_logs) and grows past several 32 KiB log blocks: hundreds of small
+    edits, reopens at positions that are not block-aligned, then a final replay"""
+    opts = 'wbuf=65536 reuse=1'
+    h = Hist(rng, dbdir, opts, 8)
+    h.open()
+    total = 300 + rng.below(120)
+    nextre = rng.range(20, 120)
+    for i in range(total):
+        h.val_seed += 1
+        h.emit('put %s @%d~%d' % (proto.arg(h.key()), h.val_seed, rng.range(1, 40)))
+        h.emit('flushmem')
+        if i == nextre:
+            h.reopen()
+            nextre += rng.range(60, 200)
+        if i % 97 == 96:
+            h.read_all(with_snaps=False, sample=3)
+    h.reopen()
+    h.read_all(with_snaps=False)
+    h.emit('ls')
+    h.emit('close')
+    return h.lines
+
+
+FAMILIES_EXTRA = [('manifest-growth', family_manifest_growth)]
+
+
 def family_casefold(rng, dbdir, opts, nops):
     """a comparator under which different byte strings are one user key (ASCII case folding): every write, delete, read and
     seek uses a random spelling, so overwrites and tombstones meet older versions spelled differently in other files"""
@@ -448,7 +475,7 @@ FAMILIES = [('random', family_random), ('snapshot-chain', family_snapshot_chain)
 
 def gen_history(rng, dbdir, nops):
     opts = rng.choice(opt_sets(rng, None))
-    name, fam = rng.choice([f for f in FAMILIES if f[0] not in ('repair', 'lifecycle', 'corrupt')])
+    name, fam = rng.choice([f for f in FAMILIES if f[0] not in ('repair', 'lifecycle', 'corrupt', 'manifest-growth')])
     return name, opts, fam(rng, dbdir, opts, nops)
 
 
@@ -669,3 +696,6 @@ def family_corrupt(rng, dbdir, opts, nops):
 
 
 FAMILIES.append(('corrupt', family_corrupt))
+
+
+FAMILIES += FAMILIES_EXTRA
